@@ -564,8 +564,8 @@ def jobs(tier):
                     max_depth=60, cost=300,
                     bounds=dict(previous_file=True, crash='before / inside every file-system operation',
                                 rename='refuses to replace an existing file (Windows semantics)')))
-    shapes = [('s',), ('k',), ('w',), ('s', 's'), ('s', 'k')] if tier == 'quick' else \
-        [('s',), ('k',), ('w',), ('s', 's'), ('s', 'k'), ('k', 'w'), ('s', 'w', 'k'), ('s', 's', 's')]
+    shapes = [('s',), ('k',), ('w',), ('s', 's'), ('s', 'k'), ('w', 's')] if tier == 'quick' else \
+        [('s',), ('k',), ('w',), ('s', 's'), ('s', 'k'), ('k', 's'), ('w', 's'), ('k', 'w'), ('w', 'k'), ('s', 'w', 'k'), ('w', 'k', 's'), ('s', 's', 's')]
     for shape in shapes:
         out.append(dict(name='lock-unlock-' + ''.join(shape), family='secrets', fn='lock_unlock', args=(shape,), loop_bound=200,
                         max_depth=60, cost=100,
